@@ -170,6 +170,9 @@ func (msg *Message) Array() (*Array, error) {
 	}
 	switch msg.Type {
 	case ArrayMessage:
+		if msg.array == nil {
+			return nil, ErrNil
+		}
 		return msg.array, nil
 	case IntegerMessage, StringMessage, BulkMessage, ErrorMessage:
 		return nil, fmt.Errorf(errorInvalidMessageType, msg.Type)
